@@ -35,6 +35,9 @@ def step_body(kind, scenarios):
         return {"settings": {}, "numberSteps": 2}
     if kind == "rs3v2p":
         return dict(step_body("v2p", scenarios), numberSteps=3)
+    if kind == "vbig":
+        # a very long points table: the externalised state grows beyond a megabyte within two steps (size ladder)
+        return {"settings": {SM: {sc: {"points": {"lk": [[i * 0.001, 1.0 + (i % 7) * 0.25] for i in range(45000)]}} for sc in scenarios}}}
     if kind == "nobody":
         return None
     if kind == "empty":
@@ -216,6 +219,10 @@ def jobs(tier):
             for compress in (False, True):
                 for route in ("explicit-after-end", "explicit-after-begin", "explicit+junk", "explicit+junk/desc", "restart+junk", "restart+junk/desc"):
                     out.append((st, dt, list(kinds), compress, route, ["base"]))
+    # a state of more than a megabyte
+    for compress in (False, True):
+        for route in ("auto", "restart"):
+            out.append((0, 1, ["vbig", "vbig", "nobody"], compress, route, ["base"]))
     # requests that take several steps with one settings object
     for (st, dt) in ((0, 1), (0.5, 0.5)):
         for n in (1, 2):
@@ -226,7 +233,7 @@ def jobs(tier):
                     for route in ("auto", "explicit", "restart"):
                         out.append((st, dt, list(kinds), compress, route, ["base"]))
     # step times whose text order differs from their numeric order: negative times, and sessions of more than ten steps
-    for (st, dt, n) in ((-2, 1, 3), (-1, 0.5, 3), (0, 1, 12), (8, 1, 4)):
+    for (st, dt, n) in ((-2, 1, 1), (-2, 1, 2), (-2, 1, 3), (-2, 1, 4), (-1, 0.5, 1), (-1, 0.5, 2), (-1, 0.5, 3), (-0.3, 0.1, 3), (0, 1, 12), (8, 1, 4)):
         for kinds in (["v1"] + ["nobody"] * (n - 1), ["nobody", "v2p"] + ["empty"] * (n - 2), ["nobody"] * n):
             for compress in (False, True):
                 for route in ("auto", "explicit", "restart"):
